@@ -1,4 +1,5 @@
 pub mod engine;
+pub mod ffi;
 pub mod gen;
 pub mod mflat;
 pub mod mfold;
